@@ -16,6 +16,7 @@ import (
 	storetypes "cosmossdk.io/store/types"
 	"github.com/btcsuite/btcd/chaincfg"
 	cmtproto "github.com/cometbft/cometbft/proto/tendermint/types"
+	cmttypes "github.com/cometbft/cometbft/types"
 	dbm "github.com/cosmos/cosmos-db"
 	"github.com/cosmos/cosmos-sdk/codec"
 	addresscodec "github.com/cosmos/cosmos-sdk/codec/address"
@@ -131,6 +132,7 @@ type World struct {
 	GoatMsg goattypes.MsgServer
 	Net     *chaincfg.Params
 	AC      address.Codec
+	Comet   *cmttypes.ValidatorSet // CometBFT-side validator set fed with every update list
 }
 
 func New(chainID string) *World {
